@@ -314,18 +314,15 @@ func (a Amount) String() string {
 	if a.exp > 1000 {
 		return "NA"
 	}
-	p := intPow(10, a.exp)
-	v := a.value
+	p := uint64(intPow(10, a.exp))
 	s := ""
-	if v < 0 {
+	v := uint64(a.value)
+	if a.value < 0 {
 		s = "-"
-		v = -v
+		v = -v // two's complement, also correct for the minimum int64
 	}
 	v1 := v / p
 	v2 := v - (v1 * p)
-	//if v2 < 0 {
-	//	v2 = -v2
-	//}
 	return fmt.Sprintf("%s%d.%0*d", s, v1, a.exp, v2)
 }
 
